@@ -481,4 +481,227 @@ def mutants():
         return numpy.array([o[0] * self.nsimul, o[1]])                             # gain not averaged over simulations
     la_orig = la.RealLookAheadGeneralizedWeightedGenomicSelectionProblem.__dict__["latentfn"]
     add("lookahead_gain_not_averaged", la.RealLookAheadGeneralizedWeightedGenomicSelectionProblem, "latentfn", la_latent2)
+
+    # ---- round 3: the classes of inputs / histories the independent breaking changes exposed ------------------------
+    # (a) sizes past internal constants
+    def embvmat_shared_work(cls, gmod, pgmat, nprogeny, nrep, **kw):
+        # the per-replicate work array allocated once, sized nrep.max(), and averaged whole (seeded C05-b1)
+        from numbers import Integral
+        if isinstance(nprogeny, Integral):
+            nprogeny = numpy.repeat(nprogeny, pgmat.ntaxa)
+        if isinstance(nrep, Integral):
+            nrep = numpy.repeat(nrep, pgmat.ntaxa)
+        geno = pgmat.mat
+        embv = numpy.empty((pgmat.ntaxa, gmod.ntrait), dtype=float)
+        mbv = numpy.zeros((nrep.max(), gmod.ntrait))
+        for i in range(pgmat.ntaxa):
+            for j in range(nrep[i]):
+                mat = em.dense_dh(geno, numpy.repeat(i, nprogeny[i]), pgmat.vrnt_xoprob, em.global_prng)
+                progeny = em.DensePhasedGenotypeMatrix(mat=mat, vrnt_chrgrp=pgmat.vrnt_chrgrp, vrnt_phypos=pgmat.vrnt_phypos,
+                                                       vrnt_name=pgmat.vrnt_name, vrnt_genpos=pgmat.vrnt_genpos,
+                                                       vrnt_xoprob=pgmat.vrnt_xoprob)
+                mbv[j, :] = gmod.gebv(progeny).tmax(unscale=True)
+            embv[i, :] = mbv.mean(axis=0)
+        return cls.from_numpy(mat=embv, taxa=pgmat.taxa, taxa_grp=pgmat.taxa_grp, trait=gmod.trait)
+    add("embvmat_work_array_shared_between_taxa", em.DenseExpectedMaximumBreedingValueMatrix, "from_gmod",
+        classmethod(embvmat_shared_work))
+
+    def calc_ohvmat_running(ploidy, haplomat, xmap, mem=1024):
+        # running maximum kept in a work array that is never reset between memory chunks (seeded C05-b2)
+        nconfig = xmap.shape[0]
+        o = numpy.empty((nconfig, haplomat.shape[3]), dtype=haplomat.dtype)
+        step = nconfig if mem is None else mem
+        hmax = numpy.full((min(step, nconfig),) + haplomat.shape[2:], -numpy.inf, dtype=haplomat.dtype)
+        for rst in range(0, nconfig, step):
+            rsp = min(rst + step, nconfig)
+            xconfig = xmap[rst:rsp, :]
+            hk = hmax[:rsp - rst]
+            for j in range(xconfig.shape[1]):
+                numpy.maximum(hk, haplomat[:, xconfig[:, j], :, :].max(0), out=hk)
+            o[rst:rsp, :] = ploidy * hk.sum(1)
+        return o
+    add("ohv_chunk_work_array_not_reset", ohv.OptimalHaploidValueSelectionProblemMixin, "_calc_ohvmat",
+        staticmethod(calc_ohvmat_running))
+
+    def calc_ohvmat_lastchunk(ploidy, haplomat, xmap, mem=1024):
+        # the last (partial) chunk is dropped from the loop and filled from the previous one
+        nconfig = xmap.shape[0]
+        o = numpy.zeros((nconfig, haplomat.shape[3]), dtype=haplomat.dtype)
+        step = nconfig if mem is None else mem
+        for rst in range(0, nconfig - nconfig % step if nconfig > step else nconfig, step):
+            rsp = min(rst + step, nconfig)
+            o[rst:rsp, :] = ploidy * haplomat[:, xmap[rst:rsp, :], :, :].max((0, 2)).sum(1)
+        return o
+    add("ohv_last_partial_chunk_dropped", ohv.OptimalHaploidValueSelectionProblemMixin, "_calc_ohvmat",
+        staticmethod(calc_ohvmat_lastchunk))
+
+    def pafd_int8(self, x, *a, **k):
+        sel = numpy.zeros(self.geno.shape[0], dtype=self.geno.dtype)           # int8 accumulator (seeded C05-c2)
+        sel[x] = 1
+        pfreq = sel.dot(self.geno)[:, None] / (self.ploidy * len(x))
+        return (self.mkrwt * numpy.absolute(self.tfreq - pfreq)).sum(0)
+    add("pafd_allele_count_in_int8", pafd.PopulationAlleleFrequencyDistanceSubsetSelectionProblem, "latentfn", pafd_int8)
+
+    def pau_int8(self, x, *a, **k):
+        cnt = self.geno[x, :].sum(0, dtype=self.geno.dtype)                      # int8 accumulator
+        pfreq = cnt[:, None] / (self.ploidy * len(x))
+        p_lt, p_gt = pfreq < 1.0, pfreq > 0.0
+        un = ~((p_lt & self.tminor) | ((p_lt & p_gt) & self.thet) | (p_gt & self.tmajor))
+        return (self.mkrwt * un).sum(0)
+    add("pau_allele_count_in_int8", pau.PopulationAlleleUnavailabilitySubsetSelectionProblem, "latentfn", pau_int8)
+
+    def ebv_int_sum_dtype(self, x, *a, **k):
+        xsum = x.sum(dtype=x.dtype)                                              # total accumulated in the vector's dtype
+        xsum = xsum if abs(xsum) >= 1e-10 else 1.0
+        return -((1.0 / xsum) * x).dot(self._ebv)
+    add("ebv_integer_total_in_vector_dtype", ebv.EstimatedBreedingValueIntegerSelectionProblem, "latentfn", ebv_int_sum_dtype)
+
+    # (b) histories on one object / shared objects
+    cache_C = {}
+
+    def calc_C_cached(gmat, cmatfcty):
+        import weakref
+        hit = cache_C.get(id(gmat))                                              # never invalidated (seeded C05-c3)
+        if hit is not None and hit[0]() is gmat and hit[1] is cmatfcty:
+            return hit[2]
+        G = cmatfcty.from_gmat(gmat)
+        G.apply_jitter()
+        o = numpy.linalg.cholesky(G.mat_asformat("kinship")).T
+        cache_C.clear()
+        cache_C[id(gmat)] = (weakref.ref(gmat), cmatfcty, o)
+        return o
+    add("ocs_kinship_factor_cached_by_identity", ocs.OptimalContributionSelectionProblemMixin, "_calc_C",
+        staticmethod(calc_C_cached))
+
+    orig_gebv_sub = gebv.GenomicEstimatedBreedingValueSubsetSelectionProblem.latentfn
+
+    def gebv_memo(self, x, *a, **k):
+        memo = self.__dict__.setdefault("_memo", {})                             # never invalidated when the data change
+        key = x.tobytes()
+        if key not in memo:
+            memo[key] = orig_gebv_sub(self, x, *a, **k)
+        return memo[key].copy()
+    add("gebv_subset_latent_memoised", gebv.GenomicEstimatedBreedingValueSubsetSelectionProblem, "latentfn", gebv_memo)
+
+    def l1_shared_buffer(self, x, *a, **k):
+        buf = self.__dict__.setdefault("_buf", numpy.empty(self._V.shape[0]))    # one result buffer handed out every time
+        contrib = (1.0 / x.sum()) * x
+        buf[:] = numpy.absolute(self._V.dot(contrib)).sum(1)
+        return buf
+    add("l1_real_result_buffer_shared", l1.L1NormGenomicRealSelectionProblem, "latentfn", l1_shared_buffer)
+
+    def opv_shared_buffer(self, x, *a, **k):
+        buf = self.__dict__.setdefault("_buf", numpy.empty(self._haplomat.shape[3]))
+        buf[:] = -self.ploidy * self._haplomat[:, x, :, :].max((0, 1)).sum(0)
+        return buf
+    add("opv_result_buffer_shared", opv.OptimalPopulationValueSubsetSelectionProblem, "latentfn", opv_shared_buffer)
+
+    bv_cache = {}
+
+    def ebv_from_bvmat_cached(cls, bvmat, unscale, **kw):
+        key = (id(bvmat), bool(unscale))
+        if key not in bv_cache or bv_cache[key][0] is not bvmat:
+            bv_cache.clear()
+            bv_cache[key] = (bvmat, (bvmat.unscale() if unscale else bvmat.mat).copy())
+        return cls(ebv=bv_cache[key][1], **kw)                                   # stale after the matrix is edited in place
+    out.append(("ebv_from_bvmat_cached_by_identity",
+                lambda: _patch_all([getattr(ebv, f"EstimatedBreedingValue{e}SelectionProblem") for e in ENCS],
+                                   "from_bvmat", classmethod(ebv_from_bvmat_cached))))
+
+    from pybrops.opt.prob import Problem as PR
+    old_wt = PR.Problem.__dict__["obj_wt"]
+
+    def obj_wt_set(self, value):
+        if self.__dict__.get("_obj_wt") is not None and isinstance(value, numpy.ndarray):
+            return                                                               # re-assignment silently ignored
+        old_wt.fset(self, value)
+    add("problem_obj_wt_reassignment_ignored", PR.Problem, "obj_wt", property(old_wt.fget, obj_wt_set))
+
+    old_iwt = PR.Problem.__dict__["ineqcv_wt"]
+
+    def ineqcv_wt_set(self, value):
+        from numbers import Real
+        if isinstance(value, Real):
+            value = numpy.repeat(1.0, self.nineqcv)                              # a scalar weight is dropped
+        old_iwt.fset(self, value)
+    add("problem_scalar_ineqcv_weight_dropped", PR.Problem, "ineqcv_wt", property(old_iwt.fget, ineqcv_wt_set))
+
+    # (c) tolerance-style "fixes"
+    def gebv_real_isclose(self, x, *a, **k):
+        xsum = x.sum()
+        xsum = 1.0 if numpy.isclose(xsum, 0.0) else xsum                          # absolute tolerance 1e-8 instead of 1e-10
+        return -((1.0 / xsum) * x).dot(self._gebv)
+    add("gebv_real_guard_isclose", gebv.GenomicEstimatedBreedingValueRealSelectionProblem, "latentfn", gebv_real_isclose)
+
+    def pau_isclose(tfreq):
+        return numpy.isclose(tfreq, 0.0)                                          # targets within 1e-8 of 0 treated as 0
+    add("pau_tminor_isclose", pau.PopulationAlleleUnavailabilitySelectionProblemMixin, "_calc_tminor", staticmethod(pau_isclose))
+
+    def wg_from_numpy_isclose(cls, Z_a, u_a, fafreq, **kw):
+        tmp = fafreq.copy()
+        tmp[numpy.isclose(tmp, 0.0)] = 1.0                                        # rare favourable alleles lose their weight
+        return cls(wgebv=Z_a.dot(u_a * numpy.power(tmp, -0.5)), **kw)
+    out.append(("wgebv_from_numpy_guard_isclose",
+                lambda: _patch_all([getattr(wg, f"WeightedGenomic{e}SelectionProblem") for e in ENCS],
+                                   "from_numpy", classmethod(wg_from_numpy_isclose))))
+
+    def ebv_sub_centered(self, x, *a, **k):
+        d = self._ebv.astype("float32")                                          # single precision: 25000 + 1/32 is lost
+        return -(1.0 / len(x)) * d[x, :].sum(0).astype(float)
+    add("ebv_subset_single_precision", ebv.EstimatedBreedingValueSubsetSelectionProblem, "latentfn", ebv_sub_centered)
+
+    # (d) argument forms
+    def mgr_memory_order(self, x, *a, **k):
+        C = self._C.ravel(order="K").reshape(self._C.shape)                      # assumes C-contiguous storage
+        return numpy.linalg.norm((1.0 / len(x)) * C[:, x].sum(1), ord=2, keepdims=True)
+    add("mgr_subset_assumes_c_contiguous", mgr.MeanGenomicRelationshipSubsetSelectionProblem, "latentfn", mgr_memory_order)
+
+    def pafd_ploidy2(self, x, *a, **k):
+        pfreq = self.geno[x, :, None].sum(0) / (2.0 * len(x))                    # diploid assumed
+        return (self.mkrwt * numpy.absolute(self.tfreq - pfreq)).sum(0)
+    add("pafd_assumes_diploid", pafd.PopulationAlleleFrequencyDistanceSubsetSelectionProblem, "latentfn", pafd_ploidy2)
+
+    def calc_ohvmat_two(ploidy, haplomat, xmap, mem=1024):
+        x2 = xmap[:, :2]                                                          # only the first two parents of a cross
+        return ploidy * haplomat[:, x2, :, :].max((0, 2)).sum(1)
+    add("ohv_only_two_parents", ohv.OptimalHaploidValueSelectionProblemMixin, "_calc_ohvmat", staticmethod(calc_ohvmat_two))
+
+    def calc_ohvmat_dip(ploidy, haplomat, xmap, mem=1024):
+        return 2 * haplomat[:, xmap, :, :].max((0, 2)).sum(1)                     # diploid assumed
+    add("ohv_assumes_diploid", ohv.OptimalHaploidValueSelectionProblemMixin, "_calc_ohvmat", staticmethod(calc_ohvmat_dip))
+
+    orig_calc_uc = uc.UsefulnessCriterionSelectionProblemMixin.__dict__["_calc_uc"].__func__
+
+    def calc_uc_args(vmatfcty, ncross, nprogeny, nself, gmapfn, selection_intensity, pgmat, gmod, xmap):
+        return orig_calc_uc(vmatfcty, nprogeny, ncross, 0, gmapfn, selection_intensity, pgmat, gmod, xmap)   # design numbers mixed up
+    add("uc_design_numbers_mixed_up", uc.UsefulnessCriterionSelectionProblemMixin, "_calc_uc", staticmethod(calc_uc_args))
+
+    def pau_recip(self, x, *a, **k):
+        pfreq = (1.0 / (self.ploidy * len(x))) * self.geno[x, :, None].sum(0)     # 49 * (1/49) != 1: a fixed locus looks segregating
+        p_lt, p_gt = pfreq < 1.0, pfreq > 0.0
+        un = ~((p_lt & self.tminor) | ((p_lt & p_gt) & self.thet) | (p_gt & self.tmajor))
+        return (self.mkrwt * un).sum(0)
+    add("pau_frequency_by_reciprocal", pau.PopulationAlleleUnavailabilitySubsetSelectionProblem, "latentfn", pau_recip)
+
+    def pau_round(self, x, *a, **k):
+        pfreq = numpy.round(self.geno[x, :, None].sum(0) / (self.ploidy * len(x)), 2)   # nearly fixed loci rounded to fixed
+        p_lt, p_gt = pfreq < 1.0, pfreq > 0.0
+        un = ~((p_lt & self.tminor) | ((p_lt & p_gt) & self.thet) | (p_gt & self.tmajor))
+        return (self.mkrwt * un).sum(0)
+    add("pau_frequency_rounded", pau.PopulationAlleleUnavailabilitySubsetSelectionProblem, "latentfn", pau_round)
+
+    def l1_real_tol(self, x, *a, **k):
+        contrib = x if numpy.isclose(x.sum(), 1.0, atol=1e-6) else (1.0 / x.sum()) * x   # "already normalised" to a tolerance
+        return numpy.absolute(self._V.dot(contrib)).sum(1)
+    add("l1_real_normalisation_skipped_near_one", l1.L1NormGenomicRealSelectionProblem, "latentfn", l1_real_tol)
+
+    def fam_runlength(self, value):
+        self._familyid = value                                                   # run-length index: right for grouped ids only
+        self._family = numpy.unique(value)
+        ix = numpy.concatenate([[0], numpy.cumsum(value[1:] != value[:-1])]) if len(value) else numpy.zeros(0, dtype=int)
+        self._familyix = numpy.minimum(ix, len(self._family) - 1)
+    fam_prop = fam.FamilyEstimatedBreedingValueRealSelectionProblem.__mro__[1].__dict__.get("familyid") or \
+        fam.FamilyEstimatedBreedingValueSelectionProblemMixin.__dict__["familyid"]
+    add("family_index_assumes_grouped_ids", fam.FamilyEstimatedBreedingValueSelectionProblemMixin, "familyid",
+        property(fam_prop.fget, fam_runlength))
     return out
